@@ -54,7 +54,24 @@ def _build(name, unit_dir, scratch, auto_map):
     return exe
 
 
+_memo = {}
+
+
 def _run(exe, label, fn, strict=False):
+    # programs that check every clause whatever the label asked for are run once per build
+    insens = False
+    try:
+        insens = '// vx: label-insensitive' in open(exe + '.rs').read()
+    except Exception:
+        pass
+    if insens:
+        if exe not in _memo:
+            _memo[exe] = _run1(exe, label, fn, strict)
+        return _memo[exe]
+    return _run1(exe, label, fn, strict)
+
+
+def _run1(exe, label, fn, strict=False):
     try:
         r = subprocess.run([exe, label, fn or ''], capture_output=True, text=True, timeout=300)
     except subprocess.TimeoutExpired:
